@@ -295,6 +295,36 @@ def gen(seed, tier):
         for m in mutations(r, enc):
             cases.append("D " + hx(m))
             stats["D_mutation"] += 1
+    # buffered writer (coq/C07/WriteBuf.v): B <K|B> <cap> <tree>. Capacities sit on the case splits of the
+    # code and of the proofs: 0, 1, the encoding length -1 / exact / +1 (object_write_to_buffer overflow and the
+    # "filled exactly by _c_char" path), every capacity up to the length for small trees (every flush
+    # position inside digits / string bodies / between tokens), and the library's own 1024.
+    rb = random.Random(seed * 7919 + 17)
+    small = [0, 5, -7, INT64_MIN, b"", b"a", b"abc", [], ("M", []), [0], [[]], [b""], [5, b"ab"], [[], []],
+             ("M", [(b"a", 0)]), ("M", [(b"", b"")]), ("M", [(b"k", [1, b"xy"]), (b"l", ("M", []))]),
+             [10, b"0123456789", ("M", [(b"ab", -1)])]]
+    for t in small:
+        n = len(ref_encode(normalize(t)))
+        for cap in range(0, n + 3):
+            for k in "KB":
+                cases.append("B %s %d %s" % (k, cap, tree_line(t)))
+                stats["B_small_all_caps"] = stats.get("B_small_all_caps", 0) + 1
+    for _ in range(150 if tier == "quick" else 500):   # model cost is O(|enc| * cap) per case (unary nat, list append)
+        t = rand_tree(rb, rb.choice((1, 2, 3, 4)))
+        n = len(ref_encode(normalize(t)))
+        caps = {1, 2, 3, max(0, n - 2), max(0, n - 1), n, n + 1, 1024, rb.randrange(1, n + 2), rb.randrange(1, 20)}
+        for cap in sorted(caps):
+            for k in "KB":
+                cases.append("B %s %d %s" % (k, cap, tree_line(t)))
+                stats["B_random"] = stats.get("B_random", 0) + 1
+    for n in (1023, 1024, 1025, 2049, 5000):
+        body = bytes((i * 11 + n) & 0xff for i in range(n))
+        t = ("M", [(b"k", [body, 5]), (body[:300], b"v")])
+        ln = len(ref_encode(normalize(t)))
+        for cap in (1, 7, 1023, 1024, 1025, ln - 1, ln):
+            for k in "KB":
+                cases.append("B %s %d %s" % (k, cap, tree_line(t)))
+                stats["B_long"] = stats.get("B_long", 0) + 1
     alpha = b"ilde-019: +a"
     for _ in range(600 if tier == "quick" else 6000):
         n = r.randrange(1, 14)
